@@ -28,6 +28,7 @@ from . import v2rewrite
 from . import v2version
 from . import v1patterns
 from . import v2patterns
+from . import _verif
 
 try:
     import pretty_traceback
@@ -304,6 +305,7 @@ def test(
     set_version   : typ.Optional[str] = None,
 ) -> None:
     """Increment a version number for demo purposes."""
+    _verif.emit("cli.start", cmd="test", old_version=old_version, pattern=pattern, major=major, minor=minor, patch=patch, tag=tag, tag_num=tag_num, pin_increments=pin_increments, pin_date=pin_date, date=date, set_version=set_version)
     _configure_logging(verbose=max(_VERBOSE, verbose))
     _validate_release_tag(tag)
 
@@ -328,6 +330,7 @@ def test(
     else:
         new_version = set_version
 
+    _verif.emit("incr", cmd="test", pattern=raw_pattern, old=old_version, new=new_version, today=version.TODAY, date=maybe_date)
     if new_version is None:
         _log_no_change('test', raw_pattern)
         sys.exit(1)
@@ -336,8 +339,10 @@ def test(
         if set_version:
             logger.error(f"Invalid argument --set-version='{set_version}'")
 
+        _verif.emit("gate", cmd="test", pattern=raw_pattern, old=old_version, new=new_version, unique=False, ok=False)
         sys.exit(1)
 
+    _verif.emit("gate", cmd="test", pattern=raw_pattern, old=old_version, new=new_version, unique=False, ok=True)
     pep440_version = version.to_pep440(new_version)
 
     click.echo(f"New Version: {new_version}")
@@ -462,6 +467,7 @@ def show(
     environ       : bool = False,
 ) -> None:
     """Show current version of your project."""
+    _verif.emit("cli.start", cmd="show", ignore_vcs_tag=ignore_vcs_tag, fetch=fetch)
     _configure_logging(verbose=max(_VERBOSE, verbose))
 
     _, cfg = config.init(project_path=".")
@@ -689,6 +695,7 @@ def _try_update(
 @dry_option
 def init(verbose: int = 0, dry: bool = False) -> None:
     """Initialize [bumpver] configuration."""
+    _verif.emit("cli.start", cmd="init", dry=dry)
     _configure_logging(verbose=max(_VERBOSE, verbose))
 
     ctx, cfg = config.init(project_path=".", cfg_missing_ok=True)
@@ -709,6 +716,7 @@ def init(verbose: int = 0, dry: bool = False) -> None:
 def get_latest_vcs_version_tag(cfg: config.Config, fetch: bool) -> typ.Optional[str]:
     all_tags     = vcs.get_tags(fetch=fetch, scope=cfg.tag_scope)
     version_tags = _parse_version_tags(all_tags, cfg.version_pattern, cfg.is_new_pattern)
+    _verif.emit("vcs.tags", scope=cfg.tag_scope, fetch=fetch, tags=all_tags, valid=version_tags)
 
     if version_tags:
         version_tags.sort(key=version.parse_version, reverse=True)
@@ -862,6 +870,7 @@ def update(
     post_commit_hook: typ.Optional[str] = None,
 ) -> None:
     """Update project files with the incremented version string."""
+    _verif.emit("cli.start", cmd="update", dry=dry, allow_dirty=allow_dirty, ignore_vcs_tag=ignore_vcs_tag, fetch=fetch, major=major, minor=minor, patch=patch, tag=tag, tag_num=tag_num, pin_increments=pin_increments, pin_date=pin_date, date=date, set_version=set_version, commit_message=commit_message, tag_message=tag_message, commit=commit, tag_commit=tag_commit, push=push, tag_scope=tag_scope, pre_commit_hook=pre_commit_hook, post_commit_hook=post_commit_hook)
     verbose = max(_VERBOSE, verbose)
     _configure_logging(verbose)
     _validate_release_tag(tag)
@@ -882,6 +891,7 @@ def update(
     if not ignore_vcs_tag:
         cfg = _update_cfg_from_vcs(cfg, fetch)
 
+    _verif.emit("resolve", current_version=cfg.current_version, pattern=cfg.version_pattern, tag_scope=cfg.tag_scope, commit=cfg.commit, tag=cfg.tag, push=cfg.push, pre_commit_hook=cfg.pre_commit_hook, post_commit_hook=cfg.post_commit_hook, file_patterns={k: [p.raw_pattern for p in v] for k, v in cfg.file_patterns.items()})
     old_version = cfg.current_version
     if set_version is None:
         new_version = incr_dispatch(
@@ -899,6 +909,7 @@ def update(
     else:
         new_version = set_version
 
+    _verif.emit("incr", cmd="update", pattern=cfg.version_pattern, old=old_version, new=new_version, today=version.TODAY, date=maybe_date)
     if new_version is None:
         _log_no_change('update', cfg.version_pattern)
         sys.exit(1)
@@ -908,8 +919,10 @@ def update(
     if not _is_valid_version(cfg.version_pattern, old_version, new_version, unique=uniqueness_check):
         if set_version:
             logger.error(f"Invalid argument --set-version='{set_version}'")
+        _verif.emit("gate", cmd="update", pattern=cfg.version_pattern, old=old_version, new=new_version, unique=uniqueness_check, ok=False)
         sys.exit(1)
 
+    _verif.emit("gate", cmd="update", pattern=cfg.version_pattern, old=old_version, new=new_version, unique=uniqueness_check, ok=True)
     logger.info(f"Old Version: {old_version}")
     logger.info(f"New Version: {new_version}")
 
